@@ -66,8 +66,15 @@ template <class T> static void matmul44extra (const Matrix44<T>& A, const Matrix
 {
     Rec r ("la"); r.str ("fn", "matmul"); r.str ("t", tg<T> ()); r.num ("n", 4); r.raw ("a", jv (A)); r.raw ("b", jv (B));
     Matrix44<T> C; Matrix44<T>::multiply (A, B, C);
-    Outs o; o.add ("*", A * B); o.add ("multiply2", Matrix44<T>::multiply (A, B)); o.add ("multiply3", C);
+    // the three-argument form with the result aliasing either operand
+    Matrix44<T> Ca = A; Matrix44<T>::multiply (Ca, B, Ca);
+    Matrix44<T> Cb = B; Matrix44<T>::multiply (A, Cb, Cb);
+    Outs o; o.add ("*", A * B); o.add ("multiply2", Matrix44<T>::multiply (A, B)); o.add ("multiply3", C); o.add ("multiply3-into-a", Ca); o.add ("multiply3-into-b", Cb);
     r.raw ("outs", o.done ()); r.emit ();
+    Rec s ("la"); s.str ("fn", "matmul"); s.str ("t", tg<T> ()); s.num ("n", 4); s.raw ("a", jv (A)); s.raw ("b", jv (A));
+    Matrix44<T> Cs = A; Matrix44<T>::multiply (Cs, Cs, Cs);
+    Outs o2; o2.add ("*", A * A); o2.add ("multiply3-all-aliased", Cs);
+    s.raw ("outs", o2.done ()); s.emit ();
 }
 // plain vector x matrix (no homogeneous divide)
 template <class T, class V, class M> static void vecmat (const V& v, const M& A, int n)
